@@ -78,8 +78,8 @@ Ftp::ParseProtoIpPort(const char *buf, Ip::Address &addr)
         return false;
 
     s = e + 1; // skip port delimiter
-    const int port = strtol(s, const_cast<char**>(&e), 10);
-    if (port < 0 || *e != '|')
+    const long port = strtol(s, const_cast<char**>(&e), 10);
+    if (port <= 0 || port > 65535 || *e != '|') // do not truncate huge values into the valid range
         return false;
 
     if (Config.Ftp.sanitycheck && port < 1024)
